@@ -251,3 +251,128 @@ mutual
 end
 
 end Gql.Format
+
+namespace Gql.Format
+open Gql Gql.Lexer Gql.Grammar Gql.Print
+
+variable {cfg : Cfg} (hind : BlankIndent cfg)
+include hind
+
+/-- a required selection set: `{` selections `}` -/
+theorem T_selectionSet_req {g : Bool} {w : W} {ts : List Tok} (sel : Selections) (h : I g w ts)
+    (hne : (match sel with | .nil => false | _ => true) = true) (hs : selsOk sel = true) :
+    LexTo (writeNewline (formatSelectionSet cfg sel w)).text (ts ++ printSelectionSet (normSels sel)) false := by
+  have h1 := P_newline (T_selectionSet hind sel g w ts h hs)
+  cases sel with
+  | nil => simp at hne
+  | cons s rest => simpa [optSelSet, normSels] using h1
+
+/-- variable definitions, directives and the selection set of an operation -/
+theorem T_opTail {w : W} {ts : List Tok} (vars : List VarDef) (dirs : List Directive) (sel : Selections)
+    (h : I true w ts) (hvars : vars.all varDefOk = true) (hdirs : dirs.all dirOk = true)
+    (hne : (match sel with | .nil => false | _ => true) = true) (hsel : selsOk sel = true) :
+    LexTo (writeNewline (formatSelectionSet cfg sel (formatDirectiveList cfg dirs
+        (formatVariableDefinitionList cfg vars w)))).text
+      (ts ++ (printVarDefs (vars.map normVarDef) ++ (printDirectives (dirs.map normDir) ++
+        printSelectionSet (normSels sel)))) false := by
+  have h3 := T_varDefList hind vars h hvars
+  have h4 := T_directiveList hind dirs true _ _ h3 hdirs
+  have h5 := T_selectionSet_req hind sel h4 hne hsel
+  simpa [List.append_assoc] using h5
+
+/-- `FormatOperationDefinition`: the operation keyword is always written -/
+theorem T_operation {w : W} {ts : List Tok} (o : OperationDef) (h : LexTo w.text ts false) (ho : opOk o = true) :
+    LexTo (formatOperationDefinition cfg o w).text (ts ++ printOperationLong (normOp o)) false := by
+  obtain ⟨op, name, vars, dirs, sel, pos⟩ := o
+  simp only [opOk, Bool.and_eq_true] at ho
+  obtain ⟨⟨⟨⟨⟨hop, hname⟩, hvars⟩, hdirs⟩, hne⟩, hsel⟩ := ho
+  have h1 := P_word hind (cfg := cfg) (g := false) (I.free h) (tokText_name op hop).lexTo (StartOK_false _)
+    (trimSpace_name _ hop)
+  cases name with
+  | nil =>
+    have h2 : I true (writeWord cfg op w) (ts ++ [tName op]) := I.mk h1 (by simp [tightOf])
+    have h5 := T_opTail hind vars dirs sel h2 hvars hdirs hne hsel
+    cases sel with
+    | nil => simp at hne
+    | cons s rest =>
+      simpa [formatOperationDefinition, printOperationLong, normOp, List.append_assoc] using h5
+  | cons b tl =>
+    have hn : isNameB (b :: tl) = true := by simpa using hname
+    have h1a := P_word hind (cfg := cfg) (g := false) (I.mk h1 (by simp [tightOf])) (tokText_name _ hn).lexTo
+      (StartOK_false _) (trimSpace_name _ hn)
+    by_cases hc : cfg.compacted = true
+    · have h2 : I true (noPadding (writeWord cfg (b :: tl) (writeWord cfg op w))) (ts ++ [tName op] ++ [tName (b :: tl)]) :=
+        I.mk h1a (by simp [tightOf])
+      have h5 := T_opTail hind vars dirs sel h2 hvars hdirs hne hsel
+      cases sel with
+      | nil => simp at hne
+      | cons s rest =>
+        simpa [formatOperationDefinition, printOperationLong, normOp, hc, List.append_assoc] using h5
+    · have h2 : I true (writeWord cfg (b :: tl) (writeWord cfg op w)) (ts ++ [tName op] ++ [tName (b :: tl)]) :=
+        I.mk h1a (by simp [tightOf])
+      have h5 := T_opTail hind vars dirs sel h2 hvars hdirs hne hsel
+      cases sel with
+      | nil => simp at hne
+      | cons s rest =>
+        simpa [formatOperationDefinition, printOperationLong, normOp, hc, List.append_assoc] using h5
+
+/-- `FormatFragmentDefinition` -/
+theorem T_fragment {w : W} {ts : List Tok} (f : FragmentDef) (h : LexTo w.text ts false) (hf : fragOk f = true) :
+    LexTo (formatFragmentDefinition cfg f w).text (ts ++ printFragment (normFrag f)) false := by
+  obtain ⟨name, vars, tc, dirs, sel, pos⟩ := f
+  simp only [fragOk, Bool.and_eq_true] at hf
+  obtain ⟨⟨⟨⟨⟨hname, hvars⟩, htc⟩, hdirs⟩, hne⟩, hsel⟩ := hf
+  have h1 := P_word hind (cfg := cfg) (g := false) (I.free h) (tokText_kw "fragment" (by decide)).lexTo
+    (StartOK_false _) (by decide)
+  have h2 := P_word hind (cfg := cfg) (g := false) (I.mk h1 (by simp [tightOf])) (tokText_name _ hname).lexTo
+    (StartOK_false _) (trimSpace_name _ hname)
+  have h3 := T_varDefList hind (g := false) vars (I.mk h2 (by simp [tightOf])) hvars
+  have h4 := P_word hind (cfg := cfg) h3 (tokText_kw "on" (by decide)).lexTo (StartOK_false _) (by decide)
+  have h5 := P_word hind (cfg := cfg) (g := false) (I.mk h4 (by simp [tightOf])) (tokText_name _ htc).lexTo
+    (StartOK_false _) (trimSpace_name _ htc)
+  have h6 := T_directiveList hind dirs false _ _ (I.mk h5 (by simp [tightOf])) hdirs
+  have h7 := T_selectionSet_req hind sel h6 hne hsel
+  cases sel with
+  | nil => simp at hne
+  | cons s rest =>
+    simpa [formatFragmentDefinition, printFragment, normFrag, List.append_assoc] using h7
+
+theorem T_operations : ∀ (os : List OperationDef) (w : W) (ts : List Tok), LexTo w.text ts false →
+    os.all opOk = true →
+    LexTo (os.foldl (fun w o => formatOperationDefinition cfg o w) w).text
+      (ts ++ ((os.map normOp).map printOperationLong).flatten) false
+  | [], w, ts, h, _ => by simpa using h
+  | o :: os, w, ts, h, ho => by
+    simp only [List.all_cons, Bool.and_eq_true] at ho
+    have h1 := T_operation hind o h ho.1
+    have h2 := T_operations os _ _ h1 ho.2
+    simpa [List.append_assoc] using h2
+
+theorem T_fragments : ∀ (fs : List FragmentDef) (w : W) (ts : List Tok), LexTo w.text ts false →
+    fs.all fragOk = true →
+    LexTo (fs.foldl (fun w f => formatFragmentDefinition cfg f w) w).text
+      (ts ++ ((fs.map normFrag).map printFragment).flatten) false
+  | [], w, ts, h, _ => by simpa using h
+  | f :: fs, w, ts, h, hf => by
+    simp only [List.all_cons, Bool.and_eq_true] at hf
+    have h1 := T_fragment hind f h hf.1
+    have h2 := T_fragments fs _ _ h1 hf.2
+    simpa [List.append_assoc] using h2
+
+/-- `FormatQueryDocument` from the initial writer state -/
+theorem T_document (d : QueryDoc) (hd : Formattable d) :
+    LexTo (fmtQuery cfg d) (printQueryLong (normFmt d)) false := by
+  unfold Formattable docOk at hd
+  simp only [Bool.and_eq_true] at hd
+  have h0 : LexTo (({} : W).text) [] false := by simpa [W.text] using LexTo_nil
+  have h1 := T_operations hind d.ops {} [] h0 hd.1
+  have h2 := T_fragments hind d.frags _ _ h1 hd.2
+  simpa [fmtQuery, formatQueryDocument, printQueryLong, normFmt] using h2
+
+/-- the text of a formatted executable document lexes to the long-form tokens of the document -/
+theorem tokensOf_fmtQuery (d : QueryDoc) (hd : Formattable d) :
+    tokensOf (fmtQuery cfg d) = some (printQueryLong (normFmt d)) := by
+  have h := T_document hind d hd [] [] (Follow_nil _) Lexes_nil
+  simpa using tokensOf_of_Lexes h
+
+end Gql.Format
